@@ -265,8 +265,8 @@ def describe(h, got, exp_cls=None):
 
 # ------------------------------------------------------------------ enumeration
 
-def base_choices(i, maxb):
-    pool = list(range(i)) + list(BUILTIN_BASES)
+def base_choices(i, maxb, builtins=BUILTIN_BASES):
+    pool = list(range(i)) + list(builtins)
     out = [()]
     for n in range(1, maxb + 1):
         for c in itertools.combinations(pool, n):
@@ -279,8 +279,8 @@ def base_choices(i, maxb):
     return out
 
 
-def hierarchies(nclasses, kinds_x, kinds_y, maxb):
-    per_class = [[(b, kx, ky) for b in base_choices(i, maxb) for kx in kinds_x for ky in kinds_y] for i in range(nclasses)]
+def hierarchies(nclasses, kinds_x, kinds_y, maxb, builtins=BUILTIN_BASES):
+    per_class = [[(b, kx, ky) for b in base_choices(i, maxb, builtins) for kx in kinds_x for ky in kinds_y] for i in range(nclasses)]
     for combo in itertools.product(*per_class):
         # every class below the top must be an ancestor of the top class (otherwise it is a smaller hierarchy)
         reach = set()
@@ -298,8 +298,11 @@ def hierarchies(nclasses, kinds_x, kinds_y, maxb):
 
 def plan(tier):
     if tier == 'quick':
-        return [(1, KINDS_X, KINDS_Y, 1), (2, KINDS_X, KINDS_Y, 2), (3, KINDS_X, ('none',), 2)]
-    return [(1, KINDS_X, KINDS_Y, 1), (2, KINDS_X, KINDS_Y, 2), (3, KINDS_X, KINDS_Y, 2), (4, ('none', 'classvar', 'method', 'method-assign'), ('none',), 2)]
+        return [(1, KINDS_X, KINDS_Y, 1), (2, KINDS_X, KINDS_Y, 2), (3, KINDS_X, ('none',), 2),
+                # four classes: where a definition sits in a two-level, two-base hierarchy (MRO order)
+                (4, ('none', 'classvar'), ('none',), 2, ('object',))]
+    return [(1, KINDS_X, KINDS_Y, 1), (2, KINDS_X, KINDS_Y, 2), (3, KINDS_X, KINDS_Y, 2), (4, ('none', 'classvar', 'method', 'method-assign'), ('none',), 2),
+            (5, ('none', 'classvar'), ('none',), 2, ())]
 
 
 _ENUM = {}
@@ -308,8 +311,8 @@ _ENUM = {}
 def enum(tier):
     if tier not in _ENUM:
         out = []
-        for n, kx, ky, mb in plan(tier):
-            out += list(hierarchies(n, kx, ky, mb))
+        for entry in plan(tier):
+            out += list(hierarchies(*entry))
         _ENUM[tier] = out
     return _ENUM[tier]
 
